@@ -23,6 +23,7 @@ DECIDED = [
     "gather without return_exceptions, dict(zip(...))), are passed as **kwargs to the provider / actor, and the provider's awaited value is returned",
     "R-C18-FLOW (predicate): asyncify decides 'already a coroutine function' with asyncio.iscoroutinefunction",
     "R-C18-OVERRIDE (round 5): Depends defines neither __eq__ nor __hash__ (override tables are keyed by object identity)",
+    "R-C18-AWAITED: in the files this property is anchored in, no bare statement calls a coroutine function (the operation would never run)",
 ]
 NOT_DECIDED = ["value equality over whole dependency graphs", "shared sub-dependency call counts"]
 ASSUMPTIONS = ["asyncio.gather preserves argument order in its result; dict preserves insertion order"]
@@ -31,6 +32,9 @@ DEPENDS = "repid.dependencies.depends.Depends"
 
 
 def run(ctx: Ctx) -> None:
+    from .shared import every_operation_awaited
+
+    every_operation_awaited(ctx, "R-C18-AWAITED")  # in the files this property is anchored in, no asynchronous operation is created and dropped
     asyncify_rule(ctx)
     kinds(ctx)
     inside_try(ctx)
